@@ -120,6 +120,7 @@ def plan_C01(run):
     # behaviours of the state machine (incl. the owner reconfiguring a used model between calls) replayed on live objects
     sequences_stage(run, {"C01"})
     campaign(run, "integer-grid", {"C01"}, lambda s, r: drivers.integer_grid_rate(s, r))
+    campaign(run, "ordinal-ties", {"C01"}, lambda s, r: drivers.ordinal_tie_grid(s, r, ("rate",)))
     construct_stage(run, {"C01"})
     return {"rule": "random rate() calls over the full numeric domain (2-8 teams x 1-8 players, five models, "
                     "configurations, every encoding of the outcome); distinct = distinct coverage-class vectors "
@@ -191,6 +192,7 @@ def plan_C05(run):
     campaign(run, "outcome-groups", {"C05"}, lambda s, r: drivers.outcome_groups(s, r, m))
     run.require_classes(["group:C05:draw", "group:C05:loss", "group:C05:swap"], "outcome-groups")
     campaign(run, "integer-grid", {"C05"}, lambda s, r: drivers.integer_grid_rate(s, r))
+    campaign(run, "ordinal-ties", {"C05"}, lambda s, r: drivers.ordinal_tie_grid(s, r, ("rate",)))
     return {"rule": "single-game clauses on random rate() calls (sole winner/loser, team moves together, proportionality); "
                     "two-team games under win/draw/loss; games without ties with two teams exchanging places"}
 
@@ -221,6 +223,7 @@ def plan_C07(run):
     campaign(run, "rate-campaign", {"C07"}, lambda s, r: drivers.rate_campaign(s, r, n))
     run.require_classes(RATE_CLASSES, "rate-campaign")
     campaign(run, "integer-grid", {"C07"}, lambda s, r: drivers.integer_grid_rate(s, r))
+    campaign(run, "ordinal-ties", {"C07"}, lambda s, r: drivers.ordinal_tie_grid(s, r, ("rate",)))
     return {"rule": "random rate() calls; precision-weighted zero sum of observed mu changes"}
 
 
@@ -249,6 +252,7 @@ def plan_C09(run):
     campaign(run, "increments", {"C09"}, lambda s, r: drivers.predict_relations(s, r, m))
     run.require_classes(["group:C09:perm", "group:C09:inc"], "relations")
     campaign(run, "integer-grid", {"C09"}, lambda s, r: drivers.integer_grid(s, r, ("win",)))
+    campaign(run, "ordinal-ties", {"C09"}, lambda s, r: drivers.ordinal_tie_grid(s, r, ("win",)))
     return {"rule": "predict_win on random games: distribution clauses; permuted presentations; one member's mu raised by a ladder of steps from 1 ulp to 10 beta"}
 
 
@@ -266,6 +270,7 @@ def plan_C10(run):
     campaign(run, "gap-equalised", {"C10"}, lambda s, r: drivers.predict_relations(s, r, m))
     run.require_classes(["group:C10:perm", "group:C10:gap", "group:C10:equalised"], "relations")
     campaign(run, "integer-grid", {"C10"}, lambda s, r: drivers.integer_grid(s, r, ("draw",)))
+    campaign(run, "ordinal-ties", {"C10"}, lambda s, r: drivers.ordinal_tie_grid(s, r, ("draw",)))
     return {"rule": "predict_draw on random games: range; order independence; two-team widening gaps; equalised totals",
             "assumptions": ["sigma >= 1e-4 beta (below 1e-8 beta the two-team value is 1 + 4e-16, DESIGN 2)"]}
 
@@ -286,6 +291,7 @@ def plan_C11(run):
     campaign(run, "rank-plus-draw", {"C11"}, lambda s, r: drivers.predict_relations(s, r, m))
     run.require_classes(["group:C11:rank_draw"], "relations")
     campaign(run, "integer-grid", {"C11"}, lambda s, r: drivers.integer_grid(s, r, ("rank",)))
+    campaign(run, "ordinal-ties", {"C11"}, lambda s, r: drivers.ordinal_tie_grid(s, r, ("rank",)))
     return {"rule": "predict_rank on random games incl. exactly identical teams: rank/probability consistency on the returned floats; rank + draw = 1 for n >= 3"}
 
 
@@ -300,6 +306,7 @@ def plan_C12(run):
     # predictions on live, repeatedly re-rated objects of one model (caches keyed by identity or id would show here)
     campaign(run, "leagues", {"C12"}, lambda s, r: drivers.leagues(s, r, q(run, 15, 80), q(run, 12, 40), q(run, 60, 400)))
     campaign(run, "integer-grid", {"C12"}, lambda s, r: drivers.integer_grid(s, r, ("win", "draw", "rank")))
+    campaign(run, "ordinal-ties", {"C12"}, lambda s, r: drivers.ordinal_tie_grid(s, r, ("win", "draw", "rank")))
     construct_stage(run, {"C12"})
     return {"rule": "all three predictions on random games against the 40-digit closed forms of Predict.tla, 1e-9 absolute",
             "assumptions": ["predict_rank on two teams uses n*beta^2 (the n-team form); band probability as coded (DESIGN 3.2)"]}
